@@ -371,7 +371,7 @@ func main() {
 		c.Finish("replay of one recorded case (observed after every op)")
 	}
 
-	ncases := 3000
+	ncases := 2000
 	if c.Thorough() {
 		ncases *= 20
 	}
